@@ -4,6 +4,7 @@ import Driver.Idx
 import Driver.Wire
 import Driver.Enc
 import Driver.Arr
+import Driver.Leg
 /-
   Driver.Loop — the model side of the line protocol (see harness/lp/lp.go).
 
@@ -21,6 +22,7 @@ structure DState where
   wire : Wire.State := Wire.init
   enc : Enc.State := Enc.init
   arr : Arr.State := Arr.init
+  leg : Leg.State := Leg.init
 
 def famOf (tok : String) : String := (tok.splitOn ".").headD ""
 
@@ -33,6 +35,7 @@ def dispatch (st : DState) (line : String) : DState × String :=
   | "wire" => let (s, a) := Wire.step st.wire toks; ({ st with wire := s }, a)
   | "enc" => let (s, a) := Enc.step st.enc toks; ({ st with enc := s }, a)
   | "arr" => let (s, a) := Arr.step st.arr toks; ({ st with arr := s }, a)
+  | "leg" => let (s, a) := Leg.step st.leg toks; ({ st with leg := s }, a)
   | _ => (st, "bad-op")
 
 partial def loop (inp out : IO.FS.Stream) (st : DState) : IO Unit := do
